@@ -15,6 +15,12 @@ VARIANTS = [('Server', False), ('AsyncServer', False), ('AsyncServer', True),
             ('Client', False), ('AsyncClient', False), ('AsyncClient', True),
             ('AsyncServer', 'mixed'), ('AsyncClient', 'mixed')]
 OTHER_NS = '/second'
+# ordinary event names that merely look special: prefixes of the reserved
+# names, mixed case (class-based methods are looked up by exact name)
+EXTRA_SERVER = ['connected', 'connect_error', 'disconnect_all', 'userJoined']
+EXTRA_CLIENT = ['connected', 'disconnect_all', 'userJoined']
+# names nobody registered, differing from registered ones by case only
+UNREGISTERED = ['EV', 'userjoined', 'Connect']
 
 
 def expected_target(mask, event, reserved):
@@ -123,7 +129,7 @@ def run_server(cls, coro, mask, other, ns):
     w = ServerWorld(is_async=is_async, namespaces='*')
     log = []
     build_registry(w.sio, True, is_async, coro, mask, other, ns, log,
-                   ['connect', 'disconnect', 'ev'])
+                   ['connect', 'disconnect', 'ev'] + EXTRA_SERVER)
     what = f'{cls}{"/" + str(coro) if coro else ""} mask={mask:06b} ' \
            f'other={other}'
     t = w.new_transport(environ={'env': 1})
@@ -140,6 +146,17 @@ def run_server(cls, coro, mask, other, ns):
         w.recv_packet(t, 2, ns, None, ['ev'] + args)
         check_dispatch(viols, what, log[:], mask, 'ev', False, ns,
                        (sid,) + tuple(args))
+    for ev in EXTRA_SERVER:
+        del log[:]
+        w.recv_packet(t, 2, ns, None, [ev, 1])
+        check_dispatch(viols, what, log[:], mask, ev, False, ns, (sid, 1))
+    for ev in UNREGISTERED:
+        # only catch-all *event* handlers are responsible for a name that
+        # was never registered (a class-based namespace has no such method)
+        del log[:]
+        w.recv_packet(t, 2, ns, None, [ev, 1])
+        check_dispatch(viols, what + ' (unregistered name)', log[:],
+                       mask & 0b001010, ev, False, ns, (sid, 1))
     if coro == 'mixed':
         # the same event on the other namespace, after it was seen on `ns`
         del log[:]
@@ -167,7 +184,7 @@ def run_client(cls, coro, mask, other, ns):
     viols = []
     is_async = cls == 'AsyncClient'
     what = f'{cls}{"/coro" if coro else ""} mask={mask:06b} other={other}'
-    events = ['connect', 'disconnect', 'connect_error', 'ev']
+    events = ['connect', 'disconnect', 'connect_error', 'ev'] + EXTRA_CLIENT
     # 1. accepted connection: connect / ev / disconnect
     w = ClientWorld(is_async=is_async, reconnection=False)
     log = []
@@ -190,6 +207,15 @@ def run_client(cls, coro, mask, other, ns):
         w.deliver_packet(2, ns, None, ['ev'] + args)
         check_dispatch(viols, what, log[:], mask, 'ev', False, ns,
                        tuple(args))
+    for ev in EXTRA_CLIENT:
+        del log[:]
+        w.deliver_packet(2, ns, None, [ev, 1])
+        check_dispatch(viols, what, log[:], mask, ev, False, ns, (1,))
+    for ev in UNREGISTERED:
+        del log[:]
+        w.deliver_packet(2, ns, None, [ev, 1])
+        check_dispatch(viols, what + ' (unregistered name)', log[:],
+                       mask & 0b001010, ev, False, ns, (1,))
     if coro == 'mixed':
         del log[:]
         w.deliver_packet(2, OTHER_NS, None, ['ev', 5])
